@@ -53,6 +53,10 @@ Definition rt_ctx (s : rt_state) : list (addrport * bool) :=
   map (fun q => (ami_addr (q_cand q), q_cancelled q))
       (filter (fun q => qpc_eqb (q_pc q) QWait) (st_inflight s)).
 Definition rt_closest (s : rt_state) : list kel := st_closest s.
+(* st_offered and st_responded are write-only histories (read by the theorems, never by a step or
+   an observable): the runner forgets them so that candidate states that differ only in the order
+   in which concurrent sections appended to them coincide (proofs/TraversalConc.v, erase_exec) *)
+Definition rt_erase (s : rt_state) : rt_state := set_responded (set_offered s []) [].
 
 Section Run.
   Variable c : tcfg.
@@ -110,6 +114,53 @@ Section Run.
     end.
 
   Definition rt_stalled (s : rt_state) : bool := stalled_ready s.
+
+  (* ---- several completions released together (harness line `tdonem`) ----
+     DoQuery returns in n in-flight queries at (about) the same time; their locked sections
+     (LResp, LAddN, LAddN6, LDone of each) interleave with each other and with the run loop in any
+     order.  The runner explores the successor relation [rt_conc_succ] to a fixpoint (with
+     deduplication, which a list-valued Gallina function cannot do cheaply) and quiesces every
+     state in which all n queries are done.  LDoQueryReturn only writes the query's own record, so
+     it is taken first for all of them. *)
+  Fixpoint rt_conc_begin (s : rt_state) (rs : list (addrport * rt_response))
+    : option (list nat * rt_state) :=
+    match rs with
+    | [] => Some ([], s)
+    | (a, r) :: rest =>
+        match find_by_addr a (st_inflight s) with
+        | None => None
+        | Some q =>
+            match rt_conc_begin (rt_step s (LDoQueryReturn (q_id q) r)) rest with
+            | Some (ids, s') => Some (q_id q :: ids, s')
+            | None => None
+            end
+        end
+    end.
+
+  (* the next locked section of query i once DoQuery has returned *)
+  Definition conc_next (s : rt_state) (i : nat) : option rt_label :=
+    match find_q i (st_inflight s) with
+    | Some q =>
+        match q_pc q with
+        | QWait => None
+        | QResp => Some (LResp i)
+        | QAddN => Some (LAddN i)
+        | QAddN6 => Some (LAddN6 i)
+        | QDone => Some (LDone i)
+        end
+    | None => None
+    end.
+
+  (* one more critical section: the run loop's (if it can run) or the next one of a released query *)
+  Definition rt_conc_succ (s : rt_state) (ids : list nat) : list rt_state :=
+    (if loop_can_run s then [loop_run s] else []) ++
+    flat_map (fun i => match conc_next s i with Some l => [rt_step s l] | None => [] end) ids.
+
+  (* every released query has run its deferred LDone *)
+  Definition rt_conc_finished (s : rt_state) (ids : list nat) : bool :=
+    forallb (fun i => match find_q i (st_inflight s) with Some _ => false | None => true end) ids.
+
+  Definition rt_quiesce (s : rt_state) : rt_state := quiesce s.
 
   Definition rt_accept_closest (s : rt_state) (obs : list kel) : bool :=
     accept_knear (c_target c) (eff_k (c_k c)) (st_pushed s) obs
